@@ -39,7 +39,7 @@ func Mode() int32 { return mode }
 //go:norace
 func Controlled() bool { return mode == ModeControlled }
 
-const MaxTasks = 512
+const MaxTasks = 1024 // live tasks at one time (finished tasks are compacted away)
 
 const (
 	tsRunnable int32 = iota
@@ -138,6 +138,11 @@ type Sim struct {
 	pctPoints [16]int64
 	pctN      int
 	rr        int32
+	nextID    int32
+	doneCnt   int32
+	finished  int32
+	root      *Task
+	allTasks  []*Task // every task ever spawned (teardown)
 
 	rootDone   bool
 	drainLeft  int64
@@ -274,11 +279,15 @@ func (s *Sim) pick(self *Task) *Task {
 		} else {
 			id := int32(s.cfg.Replay[s.rpos])
 			s.rpos++
-			if id >= s.n || s.tasks[id].state != tsRunnable {
+			for i := 0; i < nc; i++ {
+				if s.tasks[cand[i]].ID == id {
+					chosen = s.tasks[cand[i]]
+				}
+			}
+			if chosen == nil {
 				s.outcome = "divergence"
 				return nil
 			}
-			chosen = s.tasks[id]
 		}
 	case PolSticky:
 		if selfRunnable && s.rng.Float64() < s.cfg.StickyP {
@@ -343,6 +352,9 @@ func (s *Sim) schedule(self *Task) {
 			s.parkForever(self)
 			return
 		}
+	}
+	if s.doneCnt > 64 {
+		s.compact()
 	}
 	next := s.pick(self)
 	if next == nil {
@@ -458,12 +470,24 @@ func (s *Sim) SleepNs(d int64) {
 //go:norace
 func (s *Sim) newTask(name string) *Task {
 	if s.n >= MaxTasks {
-		panic("simrt: too many tasks")
+		s.compact()
 	}
-	t := &Task{ID: s.n, Name: name, state: tsRunnable, exited: make(chan struct{})}
+	if s.n >= MaxTasks || len(s.allTasks) >= cap(s.allTasks) {
+		// too many live tasks: end the simulation (the caller parks)
+		s.outcome = "task-limit"
+		s.finish("task-limit")
+		s.parkForever(s.cur)
+	}
+	t := &Task{ID: s.nextID, Name: name, state: tsRunnable, exited: make(chan struct{})}
+	s.nextID++
 	t.prio = s.prng.Int63n(1<<40) + 1
 	s.tasks[s.n] = t
 	s.n++
+	if len(s.allTasks) < cap(s.allTasks) {
+		// preallocated: no growslice (which is race-instrumented by the runtime)
+		s.allTasks = s.allTasks[:len(s.allTasks)+1]
+		s.allTasks[len(s.allTasks)-1] = t
+	}
 	return t
 }
 
@@ -492,13 +516,34 @@ func (s *Sim) taskMain(t *Task, fn func()) {
 	s.taskFinished(t)
 }
 
+// compact removes finished tasks from the table (ids stay stable: they are spawn ordinals).
+//
+//go:norace
+func (s *Sim) compact() {
+	j := int32(0)
+	for i := int32(0); i < s.n; i++ {
+		if s.tasks[i].state != tsDone {
+			s.tasks[j] = s.tasks[i]
+			j++
+		} else {
+			s.finished++
+		}
+	}
+	for i := j; i < s.n; i++ {
+		s.tasks[i] = nil
+	}
+	s.n = j
+	s.doneCnt = 0
+}
+
 //go:norace
 func (s *Sim) taskFinished(t *Task) {
 	if mode != ModeControlled || s.ended {
 		return
 	}
 	t.state = tsDone
-	if t.ID == 0 {
+	s.doneCnt++
+	if t == s.root {
 		s.rootDone = true
 		s.drainLeft = s.cfg.DrainSteps
 	}
@@ -569,7 +614,7 @@ func Run(cfg Config, root func()) Result {
 	if traceBuf == nil {
 		traceBuf = make([]uint16, 1<<22)
 	}
-	s := &Sim{cfg: cfg, trace: traceBuf, doneCh: make(chan struct{})}
+	s := &Sim{cfg: cfg, trace: traceBuf, doneCh: make(chan struct{}), allTasks: make([]*Task, 0, 1<<15)}
 	s.rng = NewPRNG(cfg.Seed ^ 0x5ced5ced5ced)
 	s.trng = NewPRNG(Mix(cfg.Seed, 11))
 	s.prng = NewPRNG(Mix(cfg.Seed, 12))
@@ -588,6 +633,7 @@ func Run(cfg Config, root func()) Result {
 	}
 	S = s
 	rootT := s.newTask("root")
+	s.root = rootT
 	go s.taskMain(rootT, root)
 	mode = ModeControlled
 	s.cur = rootT
@@ -595,7 +641,7 @@ func Run(cfg Config, root func()) Result {
 	<-s.doneCh
 	// teardown
 	res := Result{Outcome: s.outcome, PanicVal: s.panicVal, PanicStack: s.panicStack, PanicTask: s.panicTask,
-		Steps: s.steps, Decisions: s.decisions, Preemptions: s.preemptions, VirtualNs: s.now, Tasks: int(s.n)}
+		Steps: s.steps, Decisions: s.decisions, Preemptions: s.preemptions, VirtualNs: s.now, Tasks: len(s.allTasks)}
 	res.Trace = make([]uint16, s.tlen)
 	copy(res.Trace, s.trace[:s.tlen])
 	if res.Outcome != "ok" {
@@ -607,8 +653,7 @@ func Run(cfg Config, root func()) Result {
 		}
 	}
 	if !cfg.NoKill {
-		for i := int32(0); i < s.n; i++ {
-			t := s.tasks[i]
+		for _, t := range s.allTasks {
 			select {
 			case <-t.exited:
 				continue
